@@ -216,6 +216,9 @@ def collapse_items(items: ExpandedItems, is_linetable: bool) -> CollapsedItems:
                 or prev_item.line_offset <= (-127 if is_linetable else -128)
             )
             and item.line_offset != 0
+            # All pieces of a split line offset have the same sign
+            and item.line_offset is not None
+            and (item.line_offset > 0) == (prev_item.line_offset > 0)
         )
         # Bytecode offset too large, so split between two
         if bytecode_offset_split or line_offset_split:
